@@ -39,6 +39,23 @@ def make_cases(rng, nbase):
         pat = pg.pat(v0, t, depth=1) if kind != "wild" else "_"
         bases.append((g, t, v0, pg, pat))
         bases.append((g, t, g.perturb(v0, t, 0.7), pg, pat))
+    # ranges whose bounds are constants (legal in a native range pattern): same evaluation counts as literal bounds
+    class ConstPg:
+        def __init__(self, text, lo, hi, incl):
+            self.forms_used = {"range-const-bounds": 1}
+            self._m = "(meanings (r %s %s %s %s))" % (tgen.hexs(tgen.squash(text)), "none" if lo is None else "(int %d)" % lo, "none" if hi is None else "(int %d)" % hi, "true" if incl else "false")
+
+        def meanings_sexp(self):
+            return self._m
+
+    class ConstGen(tgen.Gen):
+        def decls(self):
+            return tgen.Gen.decls(self) + "\npub const LO: i32 = 3;\npub const HI: i32 = 9;\n"
+
+    for (text, lo, hi, incl) in (("LO..=HI", 3, 9, True), ("1..=HI", 1, 9, True), ("LO..20", 3, 20, False), ("..=HI", None, 9, True), ("LO..", 3, None, False)):
+        for x in (5, 50, 0):
+            g = ConstGen(rng)
+            bases.append((g, ("int", "i32"), ("int", x), ConstPg(text, lo, hi, incl), text))
     cases = []
     k = 0
     extra = "(m %s %s)" % (tgen.hexs("get"), tgen.hexs("field:f"))
